@@ -359,6 +359,53 @@ func checkC15(c *Check) {
 		})
 	}
 	c.Floor("error-returning calls in the cone", 12, ncalls)
+	// 2b. an invalid login is always reported: in the function of the cone
+	// that receives a login and validates it, no path returns before the
+	// validation (a fast path, a duplicate filter in front of it)
+	nval := 0
+	for _, fn := range cone.Order {
+		var val []ssa.Instruction
+		for _, ci := range callsIn(fn) {
+			cc := ci.Common()
+			sc := staticCallee(cc)
+			if sc == nil || sc.Name() != "Validate" || sc.Signature.Recv() == nil {
+				continue
+			}
+			if nt := namedOf(sc.Signature.Recv().Type()); nt == nil || nt.Obj().Name() != "RemoteUserLogin" {
+				continue
+			}
+			// the validated value is (a copy of) a parameter of fn
+			val = append(val, ci)
+		}
+		if len(val) == 0 {
+			continue
+		}
+		hasLoginParam := false
+		for _, prm := range fn.Params {
+			if nt := namedOf(prm.Type()); nt != nil && nt.Obj().Name() == "RemoteUserLogin" {
+				hasLoginParam = true
+			}
+		}
+		if !hasLoginParam {
+			continue
+		}
+		nval++
+		isVal := func(in ssa.Instruction) bool {
+			for _, v := range val {
+				if v == in {
+					return true
+				}
+			}
+			return false
+		}
+		skip := searchAvoiding(fn, nil, func(in ssa.Instruction) bool { return isReturn(in) && in.Block() != fn.Recover }, isVal)
+		pos := p.Pos(fn.Pos())
+		if skip != nil {
+			pos = p.InstrPos(skip)
+		}
+		c.Cond(skip == nil, "invalid-login-rejected", "validation of the delivered login in "+fn.Name(), pos, "every path through the function passes the validation", "the function can return before the login was validated (an early exit in front of Validate): an invalid login taking that path is dropped instead of stopping the processor with its error")
+	}
+	c.Floor("login deliveries that validate the login", 1, nval)
 
 	// 3. error hand-off
 	handoffRule(c, cone, read)
